@@ -914,6 +914,7 @@ class Ctx:
         self.sym_decisions = 0
         self.notes = []
         self.unsupported = None
+        self._sub = None
         self.twin = False
         if mode == "sym":
             self.solver = z3.Solver()
@@ -948,9 +949,13 @@ class Ctx:
         if self.pos < len(self.prefix):
             # replaying a recorded decision: no query needed
             taken = self.prefix[self.pos]
+            if taken not in (0, 1):
+                raise Inconclusive("replay diverged: recorded choice where a branch occurs (nondeterministic code under test?)")
             self.pos += 1
             self.trace.append(taken)
             self.solver.add(cond if taken else z3.Not(cond))
+            if self._sub is not None:
+                self._sub.append(cond if taken else z3.Not(cond))
             return bool(taken)
         t_ok = self._q(cond)
         f_ok = self._q(z3.Not(cond)) if t_ok else True
@@ -966,7 +971,41 @@ class Ctx:
         self.trace.append(taken)
         self.pos += 1
         self.solver.add(cond if taken else z3.Not(cond))
+        if self._sub is not None:
+            self._sub.append(cond if taken else z3.Not(cond))
         return bool(taken)
+
+    def summarize(self, fn, max_sub=4000):
+        """Explore every sub-path of fn() under the current path condition WITHOUT
+        forking the current path (function summary). Returns [(cond, value)] where
+        cond is the SBool under which fn returns value. Used for oracles that need
+        'the result of the real code on the same symbols' (e.g. sequential orders)."""
+        if self.mode == "concrete":
+            return [(True, fn())]
+        out = []
+        work = [[]]
+        saved = (self.prefix, self.pos, self.trace, self.alts, self._sub, self.sym_decisions)
+        n = 0
+        try:
+            while work:
+                n += 1
+                if n > max_sub:
+                    raise Unsupported("summarize: more than %d sub-paths" % max_sub)
+                sub = work.pop()
+                self.solver.push()
+                self.prefix, self.pos, self.trace, self.alts, self._sub = sub, 0, [], [], []
+                try:
+                    val = fn()
+                    conds = list(self._sub)
+                    out.append((_mk_bool(z3.And(*conds)) if conds else True, val))
+                except PathAbort:
+                    pass
+                finally:
+                    work.extend(self.alts)
+                    self.solver.pop()
+        finally:
+            self.prefix, self.pos, self.trace, self.alts, self._sub, self.sym_decisions = saved
+        return out
 
     def choice(self, name, options, labels=None):
         """n-ary decision over a finite list; returns the chosen element"""
@@ -983,14 +1022,17 @@ class Ctx:
             if idx >= n:
                 idx = 0
         elif self.pos < len(self.prefix):
-            idx = self.prefix[self.pos]
+            enc = self.prefix[self.pos]
+            if enc >= 0 or -enc - 1 >= n:
+                raise Inconclusive("replay diverged: recorded branch / out-of-range index where a choice occurs (nondeterministic code under test?)")
+            idx = -enc - 1
             self.pos += 1
-            self.trace.append(idx)
+            self.trace.append(enc)
         else:
             for alt in range(n - 1, 0, -1):
-                self.alts.append(self.trace + [alt])
+                self.alts.append(self.trace + [-alt - 1])
             idx = 0
-            self.trace.append(idx)
+            self.trace.append(-1)
             self.pos += 1
             if n > 1:
                 self.sym_decisions += 1
